@@ -195,4 +195,4 @@ NOT_APPLICABLE = {
     'C14': 'liveness over transport cut points x pending operations x schedules of four tokio tasks; neither Verus nor Kani models tasks, wake-ups or channel closure, and no per-function contract decides any sentence of it',
     'C16': 'quantifies over the await point at which a future is dropped; rule R3 erases exactly those suspension points, Kani cannot execute tokio mpsc/Notify within resource limits, Verus has no model of Future::poll/drop',
 }
-HOOK_COMMITS = ['50c72688828bb1ba5a3731d0192bb151612b610c', 'bf327aa51af9b76a87183aedae6f2a001cbfe489']
+HOOK_COMMITS = ['50c72688828bb1ba5a3731d0192bb151612b610c', 'bf327aa51af9b76a87183aedae6f2a001cbfe489', '51493c7968daf9e3e5d2f7edfd0ffd63d8233deb']
